@@ -275,14 +275,43 @@ def wrappers_of(net, host):
 	return found
 
 
+def holding_chains(net, host, depth=2):
+	"""Chains [(struct, member), ...] from the outermost holder down to the member that holds `host` (length 1 and 2)."""
+	chains = []
+	for wrapper, member in wrappers_of(net, host):
+		chains.append([(wrapper, member)])
+		if depth >= 2:
+			for outer, outer_member in wrappers_of(net, wrapper):
+				if outer.name != host.name:
+					chains.append([(outer, outer_member), (wrapper, member)])
+	return chains
+
+
+def value_holding(generator, chain, inner):
+	"""A value of the outermost struct of `chain` whose members along the chain are present and hold `inner` at the end (conditional
+	holders: the generator is asked again until the arm is the selected one)."""
+	struct, member = chain[0]
+	held = inner if len(chain) == 1 else value_holding(generator, chain[1:], inner)
+	if held is None:
+		return None
+	for _ in range(40):
+		base = generator.struct(struct, 0)
+		if dict(base[2]).get(member.name) is not None:
+			return ('S', base[1], [(name, held if name == member.name else value) for name, value in base[2]])
+	return None
+
+
 def nested_scenario(check, net, host, field):
-	"""sort() of an enclosing object reaches the keyed arrays of the objects it holds (what factory autosort relies on), whatever the declared
-	type of the holding member (the concrete struct or its abstract family); the sorted enclosing object then encodes."""
+	"""sort() of an enclosing object reaches the keyed arrays of the objects it holds, one and two levels down (what factory autosort relies
+	on), whatever the declared type of the holding member (the concrete struct, its abstract family, one arm of a union); the sorted
+	enclosing object then encodes."""
 	rng = check.rng
 	array_type = field.field_type
 	generator = codec.Generator(net, rng)
 	variants = key_variants(net, array_type, rng)
-	for wrapper, member in wrappers_of(net, host):
+	for chain in holding_chains(net, host):
+		outermost = chain[0][0]
+		label = '->'.join(f'{struct.name}.{member.name}' for struct, member in chain)
 		for _ in range(3 if check.tier == 'quick' else 10):
 			entries, keys = [], []
 			for entry in rng.sample(variants, len(variants)):
@@ -299,26 +328,29 @@ def nested_scenario(check, net, host, field):
 			ordered = [entries[i] for i in permutation]
 			inner_base = generator.struct(host, 0)
 			inner = ('S', inner_base[1], [(name, ordered if name == field.name else value) for name, value in inner_base[2]])
-			outer_base = generator.struct(wrapper, 0)
-			outer = ('S', outer_base[1], [(name, inner if name == member.name else value) for name, value in outer_base[2]])
+			outer = value_holding(generator, chain, inner)
+			if outer is None:
+				break
 			try:
-				obj = codec.to_object(net, wrapper.name, outer)
+				obj = codec.to_object(net, outermost.name, outer)
 			except codec.Inadmissible:
 				continue
-			check.case(f'{net.name}:{wrapper.name}.{member.name}->{host.name}.{field.name}:nested-sort', codec.render(outer))
-			result = limited(lambda o=obj: (o.sort(), codec.from_object(net, wrapper.name, o))[1])
+			check.case(f'{net.name}:{label}->{host.name}.{field.name}:nested-sort', codec.render(outer))
+			result = limited(lambda o=obj: (o.sort(), codec.from_object(net, outermost.name, o))[1])
 			if result[0] != 'ok':
 				continue
-			held = dict(result[1][2])[member.name]
+			held = result[1]
+			for _, member in chain:
+				held = dict(held[2]).get(member.name) if isinstance(held, tuple) else None
 			after = dict(held[2])[field.name] if isinstance(held, tuple) else None
 			after_keys = [codec.sort_key_of(net, array_type, e) for e in after] if after is not None else None
 			serialized = limited(lambda o=obj: bytes(o.serialize()))
 			if after_keys != sorted(keys) or serialized[0] != 'ok':
-				check.fail(signature('nested-sort', f'{wrapper.name}.{member.name}', codec.render(ordered)),
-					f'{net.name}.{wrapper.name}: sort() leaves {member.name}.{field.name} (a {host.name}) '
+				check.fail(signature('nested-sort', label, codec.render(ordered)),
+					f'{net.name}.{outermost.name}: sort() leaves {label}.{field.name} (a {host.name}) '
 					f'{"in ascending key order" if after_keys == sorted(keys) else "NOT in ascending key order"} and serialize() '
 					f'{"succeeds" if serialized[0] == "ok" else "fails: " + str(serialized[1:])[:120]}',
-					{'network': net.name, 'class': wrapper.name, 'member': member.name, 'held': host.name, 'entries': codec.render(ordered)})
+					{'network': net.name, 'class': outermost.name, 'member': label, 'held': host.name, 'entries': codec.render(ordered)})
 
 
 def compare_with_model(check, net, exprs, expected, meta, tag):
